@@ -18,12 +18,14 @@ PLAN = {
                       codec(variant="checkptr", part="heap", tiers=["thorough"])]},
     "C03": {"steps": [net(), net(variant="race", tiers=["thorough"])]},
     "C06": {"steps": [net(), net(variant="race", tiers=["thorough"])]},
+    "C07": {"steps": [net()]},
     "C08": {"steps": [codec()]},
     "C10": {"steps": [codec()]},
     "C12": {"steps": [codec()]},
     "C13": {"steps": [codec()]},
     "C16": {"steps": [codec(part="dynamic")]},
     "C17": {"steps": [codec()]},
+    "C20": {"steps": [net(), net(variant="race", tiers=["thorough"])]},
 }
 for k in PLAN:
     LEVEL.setdefault(k, "exploration")
